@@ -85,7 +85,7 @@ class C11(Prop):
                 "C11_concrete_progress", "C11_concrete_completion", "C11_concrete_await_never_blocks", "C11_concrete_bytes",
                 "C11_lanes_progress", "C11_lanes_completion", "C11_lanes_waits",
                 "C11_seq_lanes_refines", "C11_seq_lanes_progress", "C11_seq_lanes_completion",
-                "C11_zoom_levels_splice", "C11_zoom_assembly", "C11_zoom_assembly_bigwig", "C11_zoom_progress", "C11_zoom_completion"]
+                "C11_zoom_levels_splice", "C11_zoom_assembly", "C11_zoom_assembly_bigwig", "C11_zoom_outer_contract", "C11_zoom_progress", "C11_zoom_completion"]
     RULE = ("inputs: 1-10 chromosomes (names whose input, lexicographic and id order differ), per chromosome up to 40 sorted items, "
             "items_per_slot mostly 1/2/3/7 so that a chromosome has many sections, block sizes 2..256, zoom modes auto/small/manual/none, "
             "compressed and uncompressed, bigWig (60%) and bigBed (40%), single and two pass; each input is written by the real writer "
